@@ -90,17 +90,39 @@ type Hooks struct {
 
 var hooks *Hooks
 var seq int
+var dead bool
 
-// Install sets the hooks (nil: plain pass-through) and resets the op counter.
-func Install(h *Hooks) { hooks = h; seq = 0 }
+// Install sets the hooks (nil: plain pass-through), resets the op counter and
+// revives the simulated process.
+func Install(h *Hooks) { hooks = h; seq = 0; dead = false }
+
+// KillProcess marks the simulated process as dead: from now on none of its
+// file-system calls has any effect (whatever goroutines of it are still
+// scheduled find every call failing), until the next Install.
+func KillProcess() { dead = true }
+
+// Revive starts a new simulated process (hooks and op counter stay as they are).
+func Revive() { dead = false }
+
+// Dead reports whether the simulated process has been killed or has exited.
+func Dead() bool { return dead }
+
+var errDead = &os.PathError{Op: "simos", Path: "(process is dead)", Err: os.ErrClosed}
 
 // ExitPanic is the value panicked by Exit.
 type ExitPanic struct{ Code int }
 
-// Exit ends the simulated process.
-func Exit(code int) { panic(ExitPanic{code}) }
+// Exit ends the simulated process: nothing it does afterwards has any effect,
+// and the calling goroutine unwinds with an ExitPanic.
+func Exit(code int) {
+	dead = true
+	panic(ExitPanic{code})
+}
 
 func do(kind, path, path2 string, n int, f func() error) error {
+	if dead {
+		return errDead
+	}
 	h := hooks
 	if h == nil {
 		return f()
@@ -123,6 +145,9 @@ func do(kind, path, path2 string, n int, f func() error) error {
 
 // readHook gives the harness a look at (and a veto over) a read-side operation.
 func readHook(kind, path string) error {
+	if dead {
+		return errDead
+	}
 	if h := hooks; h != nil && h.Read != nil {
 		if err := h.Read(kind, path); err != nil {
 			return &os.PathError{Op: kind, Path: path, Err: err}
@@ -374,6 +399,9 @@ func (f *File) WriteAt(b []byte, off int64) (int, error) {
 // Write writes b in one or two pieces with a crash point in between; an
 // injected error may stop it after a prefix.
 func (f *File) Write(b []byte) (int, error) {
+	if dead {
+		return 0, errDead
+	}
 	h := hooks
 	if h == nil {
 		return f.f.Write(b)
